@@ -1354,6 +1354,11 @@ class Real(base.SimpleAsn1Type):
                     )
             if self._inf and value in self._inf:
                 return value
+            elif value != value:
+                # not-a-number has no ASN.1 REAL representation
+                raise error.PyAsn1Error(
+                    'Bad real value syntax: %s' % (value,)
+                )
             else:
                 e = 0
                 while int(value) != value:
